@@ -55,13 +55,18 @@ VARIABLES
 
 dvars == <<d, raw, pc, j, p>>
 
-(* Kid   = [name, kind : "file"|"dir"|"dangling"|"fifo"|"socket",                          *)
-(*          fault : "none"|"vanish1"|"vanish2"|"estat"|"eopen",                             *)
+(* Kid   = [name, kind : "file"|"dir"|"dirabs"|"dangling"|"loop"|"thrufile"|"fifo"|"socket", *)
+(*          fault : "none"|"vanish1"|"vanish2"|"estat"|"eopen"|"esub",                      *)
+(*          errno : "" | "EACCES" | "EIO" | "ENAMETOOLONG" ... (of an injected fault),      *)
 (*          capx : BOOLEAN  (a .cap/<name> file with Type=X exists),                        *)
 (*          blocks : sequence of Block (content of a link file; <<>> otherwise)]            *)
 (* Block = [merge : BOOLEAN (Path=./tgt), tgt, title ("" = no Name=), num (0 = no Numb=),   *)
 (*          x : BOOLEAN (Type=X), host ("" = this server)]                                  *)
 (* (a second Type=X block for an already hidden entry is harmless since fix 1fe5e21)        *)
+(* kind: dirabs = a directory that contains a DIRECTORY named `.abstract` (side-car-shaped);  *)
+(* loop = symlink to itself (stat: ELOOP); thrufile = symlink through a regular file (stat:  *)
+(* ENOTDIR); dangling = symlink to nothing (ENOENT).  esub = the child's own stat works but   *)
+(* every probe of a path UNDER it (child/gophermap, child/new, child/cur) fails with errno.    *)
 (* fault: vanish1 = deleted after enumeration, before the first inspection; vanish2 =       *)
 (* deleted after the multiplexer's stat, before a handler opens it; estat = stat fails      *)
 (* with EACCES; eopen = open fails with EACCES.                                             *)
@@ -121,7 +126,9 @@ ExtStrip(n) == IF \E e \in StripExts : EndsWith(n, e)
 
 \* which environment calls touch the child's own path while the parent is listed
 LinkReadable(k) == k.kind = "file" /\ k.fault \notin {"vanish1", "vanish2", "eopen"}
-StatOK(k)       == k.kind # "dangling" /\ k.fault \notin {"vanish1", "estat"}
+BrokenLinks     == {"dangling", "loop", "thrufile"}
+IsDirKind(k)    == k.kind \in {"dir", "dirabs"}
+StatOK(k)       == k.kind \notin BrokenLinks /\ k.fault \notin {"vanish1", "estat"}
 OpenFails(k)    == k.fault \in {"vanish2", "eopen"}
 NTouches(dd, k) ==      \* non-dot child: stat by the multiplexer (+ open by a sniffing handler)
     IF k.kind = "file" /\ StatOK(k) /\ IsSecure(PathOf(dd, k.name))
@@ -143,7 +150,7 @@ FilterOne(dd, n, pp) ==
          THEN \* since 3517cd4: only a regular dot-file (vfs.isfile) is a link file; it is remembered, never listed
               (IF k.kind = "file" /\ StatOK(k) THEN [pp EXCEPT !.lnames = Append(@, n)] ELSE pp)
          ELSE \* before: every dot-named non-directory was opened as a link file on the spot
-              (IF k.kind = "dir" /\ StatOK(k) THEN pp
+              (IF IsDirKind(k) /\ StatOK(k) THEN pp
                ELSE IF LinkReadable(k) THEN [pp EXCEPT !.lnames = Append(@, n)]
                ELSE Abort(pp, IF k.kind = "fifo" /\ StatOK(k) THEN "hang" ELSE "error", n))
     ELSE [pp EXCEPT !.files = Append(@, n)]
@@ -159,7 +166,7 @@ ReadLinksOp(dd, pp, sl) ==
 \* class of the handler the multiplexer finds for a child ("none": FileNotFound)
 HandlerClass(dd, k) ==
     IF ~StatOK(k) \/ ~IsSecure(PathOf(dd, k.name)) THEN "none"
-    ELSE IF k.kind = "dir" THEN "dir"
+    ELSE IF IsDirKind(k) THEN "dir"
     ELSE IF k.kind = "file" THEN (IF dd.sniff.html /\ IsHtmlName(k.name) THEN "html" ELSE "file")
     ELSE "none"
 
@@ -311,7 +318,7 @@ MetaHidden(dd, n) ==
 
 Visible(dd) == {n \in Names(dd) : ~Ignored(dd, n) /\ ~(DotHides(dd) /\ IsDot(n)) /\ ~MetaHidden(dd, n)}
 
-Unservable(dd, k) == k.kind \notin {"file", "dir"} \/ k.fault # "none" \/ ~IsSecure(PathOf(dd, k.name))
+Unservable(dd, k) == k.kind \notin {"file", "dir", "dirabs"} \/ k.fault # "none" \/ ~IsSecure(PathOf(dd, k.name))
 Healthy(dd) == {n \in Visible(dd) : ~Unservable(dd, KidOf(dd, n))}
 
 ListedNames(dd, L) == {n \in Names(dd) : \E i \in DOMAIN L : L[i].sel = PathOf(dd, n)}
